@@ -378,8 +378,18 @@ def check_dihedral(r) -> list[Fail]:
         elif abs(abs(d0) - math.pi) <= 1e-6 and abs(abs(d0_impl) - math.pi) > 1e-6:
             fails.append(Fail("dihedral:reported-angle-differs-from-the-geometry", f"atoms {(a1, a2, a3, a4)}: dihedral() says {d0_impl:.6f} for an exactly trans arrangement"))
         # the four atoms are named as Atom objects or, every third candidate, as integer indices (AtomLike)
-        quad = (mm.atoms[a1], mm.atoms[a2], mm.atoms[a3], mm.atoms[a4]) if (a1 + a4) % 3 else (a1, a2, a3, a4)
-        mm.rotate_dihedral(quad, target)
+        form = (a1 + a4) % 4
+        quad = (mm.atoms[a1], mm.atoms[a2], mm.atoms[a3], mm.atoms[a4]) if form >= 2 else (a1, a2, a3, a4) if form == 0 else tuple(np.array([a1, a2, a3, a4]))
+        if form == 1:
+            # numpy integers (np.argwhere / array indexing output): either refused before anything moves, or handled like plain ints
+            try:
+                mm.rotate_dihedral(quad, target)
+            except (ValueError, TypeError, KeyError, IndexError):
+                if not np.array_equal(mm.coords, before):
+                    fails.append(Fail("dihedral:refused-call-moved-atoms", f"atoms {(a1, a2, a3, a4)} given as numpy integers"))
+                continue
+        else:
+            mm.rotate_dihedral(quad, target)
         d1 = _dihedral(np.asarray(mm.coords, dtype=float), a1, a2, a3, a4)
         keys.append((r.get("file", "gen"), a1, a2, a3, a4, round(target, 6)))
         err = abs((d1 - target + math.pi) % (2 * math.pi) - math.pi)
